@@ -96,6 +96,20 @@ theorem occ_layout (M bin zip : List Nat) : occ M (layout M bin zip) bin.length 
   have : occ M (bin ++ (M ++ zip)) (bin.length + 0) := occ_shift.mpr (by simp [occ])
   simpa [layout] using this
 
+/-! ### writing the target without truncation (witness lemma, used by an `example` in Props.C20) -/
+
+/-- Without truncation an existing longer target keeps a non-empty stale tail behind the new
+    archive: the file is the layout of `zip ++ tail`, not of `zip`. -/
+theorem pack_keepOld_stale_tail (M old bin zip : List Nat) (h : (layout M bin zip).length < old.length) :
+    pack .keepOld M old bin zip = layout M bin (zip ++ old.drop (layout M bin zip).length) ∧
+    old.drop (layout M bin zip).length ≠ [] := by
+  constructor
+  · simp [pack, writeFrom0, layout, List.append_assoc]
+  · intro hnil
+    have := congrArg List.length hnil
+    simp only [List.length_drop, List.length_nil] at this
+    omega
+
 namespace Impl
 
 theorem readLen_le_room (room avail want : Nat) : readLen room avail want ≤ room := by
@@ -124,10 +138,11 @@ theorem scanLoop_found (g : Geom) (rd : Nat → Nat → Nat) (hcap : g.keep < g.
         rw [this]; exact hocc
       exact occ_shift.mp this
     have hroom : 0 < g.bufSize - carry.length := by omega
+    have hnp : ¬ (g.bufSize < carry.length) := by omega
     generalize hn : readLen (g.bufSize - carry.length) rest.length (rd fuel (g.bufSize - carry.length)) = n
     have hwpre : carry ++ rest.take n <+: carry ++ rest := by
       simpa using List.take_prefix n rest
-    simp only [scanLoop, hn]
+    simp only [scanLoop, hnp, if_false, hn]
     cases hf : findFirst g.marker (carry ++ rest.take n) with
     | some i =>
       simp only
@@ -201,10 +216,11 @@ theorem scanLoop_notFound (g : Geom) (rd : Nat → Nat → Nat) (hcap : g.keep <
   | succ fuel ih =>
     intro rest carry P pos hdata hcarry hfuel
     have hroom : 0 < g.bufSize - carry.length := by omega
+    have hnp : ¬ (g.bufSize < carry.length) := by omega
     generalize hn : readLen (g.bufSize - carry.length) rest.length (rd fuel (g.bufSize - carry.length)) = n
     have hwpre : carry ++ rest.take n <+: carry ++ rest := by
       simpa using List.take_prefix n rest
-    simp only [scanLoop, hn]
+    simp only [scanLoop, hnp, if_false, hn]
     cases hf : findFirst g.marker (carry ++ rest.take n) with
     | some i =>
       exfalso
